@@ -1,8 +1,15 @@
 #!/bin/sh
-# usage: tools_intake.sh <id> <Cxx>  — takes /tmp/mut/m-<id>/_mutant into seeded/<id>, confirms the demo both ways, runs the check (tools_mt.sh)
+# usage: tools_intake.sh <id> <Cxx> [seed] — takes /tmp/mut/m-<id>/_mutant into seeded/<id>, confirms the demo both ways, runs the check (tools_mt.sh)
 ID=$1; P=$2; W=/tmp/mut/m-$ID
 mkdir -p /verif/seeded/$ID && cp $W/_mutant/patch.diff $W/_mutant/meta.json /verif/seeded/$ID/ && cp $W/_mutant/*.go /verif/seeded/$ID/ 2>/dev/null
 PKG=$(python3 -c "import json;print(json.load(open('/verif/seeded/$ID/meta.json'))['demo_pkg_dir'])"); TN=$(python3 -c "import json;print(json.load(open('/verif/seeded/$ID/meta.json'))['demo_test_name'])")
 git -C $W checkout -q -- . ; git -C $W clean -fdq -e _mutant; git -C $W checkout -q --detach main
-/verif/seeded/verify_mutant.sh $W /verif/seeded/$ID $PKG $TN 2>&1 | tail -2
-/verif/tools_mt.sh $ID $P ${3:-1}
+export GOFLAGS=-mod=mod GOPROXY=off
+cd $W && git apply /verif/seeded/$ID/patch.diff || { echo "$ID: patch does not apply"; exit 2; }
+cp /verif/seeded/$ID/demo_test.go $PKG/zz_demo_test.go
+go test -count=1 -vet=off -run "$TN" "./$PKG/" > /tmp/vm_$ID.with.log 2>&1; A=$?
+git apply -R /verif/seeded/$ID/patch.diff
+go test -count=1 -vet=off -run "$TN" "./$PKG/" > /tmp/vm_$ID.without.log 2>&1; B=$?
+rm -f $PKG/zz_demo_test.go
+if [ $A -ne 0 ] && [ $B -eq 0 ]; then echo "$ID demo CONFIRMED (with rc=$A, without rc=$B)"; else echo "$ID demo NOT-CONFIRMED (with rc=$A, without rc=$B)"; fi
+cd /verif && /verif/tools_mt.sh $ID $P ${3:-1}
